@@ -29,15 +29,20 @@ class CFG:
             B.termk = b.get("termk")
             B.cond = fn.nodes[b["cond"]] if "cond" in b else None
             # `if (a || b)`: clang ends the block that evaluates `b` with the IfStmt and reports the whole `a || b` as its
-            # condition; the branch is decided by the last operand, the earlier ones have their own blocks.
+            # condition; the branch is decided by the last operand, the earlier ones have their own blocks.  When the
+            # operands are themselves nested logical expressions clang instead builds a *join* block that re-tests the whole
+            # value: there the condition stays the whole expression (consumers prune paths with eval3()).
             if B.cond is not None and B.termk in ("IfStmt", "WhileStmt", "ForStmt", "DoStmt", "ConditionalOperator"):
                 c = B.cond
+                last = B.elems[-1] if B.elems else None
                 while True:
                     while c.k == "ParenExpr" and c.children:
                         c = c.children[0]
                     if c.k == "BinaryOperator" and c.op in ("&&", "||"):
-                        c = c.children[1]
-                        continue
+                        rhs = c.children[1]
+                        if last is not None and (last is rhs or last.is_inside(rhs) or rhs.is_inside(last)) and not (last is c or c.is_inside(last)):
+                            c = rhs
+                            continue
                     break
                 B.cond = c
             B.label = fn.nodes[b["label"]] if "label" in b else None
@@ -370,3 +375,28 @@ def witness_text(fn, w):
     if not w:
         return ""
     return " -> ".join("%s:%d" % (fn.file.split("/")[-1], l) for (b, l) in w if l)
+
+
+def eval3(n, facts):
+    """Three-valued truth of a condition given the truths of the atoms already decided on a path
+    (facts: stripped-core node id -> bool)."""
+    core, neg = X.strip_bool(n)
+    if core is None:
+        return None
+    if core.id in facts:
+        return facts[core.id] ^ neg
+    if core.k == "BinaryOperator" and core.op == "&&":
+        a, b = eval3(core.children[0], facts), eval3(core.children[1], facts)
+        r = False if (a is False or b is False) else (True if (a is True and b is True) else None)
+        return None if r is None else r ^ neg
+    if core.k == "BinaryOperator" and core.op == "||":
+        a, b = eval3(core.children[0], facts), eval3(core.children[1], facts)
+        r = True if (a is True or b is True) else (False if (a is False and b is False) else None)
+        return None if r is None else r ^ neg
+    if core.k == "CallExpr" and core.callee == "__builtin_expect":
+        v = eval3(core.children[1], facts)
+        return None if v is None else v ^ neg
+    c = X.const_int(core)
+    if c is not None:
+        return bool(c) ^ neg
+    return None
